@@ -992,6 +992,7 @@ package raft
 //@ func Raft.Stop
 //@ func Raft.start
 //@   flags splitexits
+//@   loop range r.configuration.Members invariant [Ifol] forall id string :: id in visited ==> id in r.followers
 //@ func Raft.cancelConfigurationChange
 //@   flags inline lockheld
 
